@@ -9,6 +9,7 @@ from ..cfg import CFG
 from ..core import AnalysisError, const_value
 from ..defuse import DefUse, Terms, show
 from ..memo import check_no_cross_call_state
+from ..astutil import live
 
 EXPLANATION = (
     "Static analysis of parsers.fasta.read_fasta and _group_proteins. (a) "
@@ -152,7 +153,7 @@ def _group(ctx, f):
            "rewritten and the others keep pointing at stale names")
     if len(pl) == 1 and ast.unparse(pl[0].iter) == f"{gname}[{newn}]":
         v_p = pl[0].target.id
-        stm = [ast.unparse(s) for s in pl[0].body]
+        stm = [ast.unparse(s) for s in live(pl[0].body, f.node)]
         want = [f"{p_pep}[{v_p}].remove({v_m})",
                 f"if {v_prot} in {p_pep}[{v_p}]:\n    "
                 f"{p_pep}[{v_p}].remove({v_prot})",
@@ -192,7 +193,7 @@ def _read_fasta(ctx, f):
     ok = False
     if len(ifs) == 1 and isinstance(ifs[0].test, ast.Name):
         pv = ifs[0].test.id
-        body = [ast.unparse(s) for s in ifs[0].body]
+        body = [ast.unparse(s) for s in live(ifs[0].body, f.node)]
         ok = body[0] == f"proteins[prot] = {pv}" and any(
             "peptides[pep].add(prot)" in b for b in body) and not \
             ifs[0].orelse
